@@ -119,12 +119,86 @@ func runC05(r *Run) {
 	}
 
 	c05AKIForms(e)
+	c05NonStrictTrace(e)
 
 	nMut := 2000
 	if r.Thorough() {
 		nMut = 50000
 	}
 	e.runMutations(nMut)
+}
+
+// c05NonStrictTrace: without ocsp_aia_strict an unauthentic / erroneous / malformed answer is "no answer" and the handshake
+// goes on - but it must leave no trace: when the issuer's genuine answer (revoked) is available at the next handshake, that
+// answer counts, also within the cache lifetime, and a strict validator of the same process is not served from what the first
+// one left behind.
+func c05NonStrictTrace(e *c05Env) {
+	r := e.r
+	lenient, err := Provision(VCfg{Mode: "ocsp_only", NoCRLConfig: true, OCSPStrict: false, OCSPCacheDur: "1h"})
+	if err != nil {
+		r.Violate("C05 provision-failed", "non-strict: "+err.Error(), nil)
+		return
+	}
+	defer lenient.Close()
+	kinds := []string{"stranger", "sibling", "trylater", "malformed", "other-serial", "down"}
+	for i, kind := range kinds {
+		path := fmt.Sprintf("/c05/trace/%d", i)
+		leaf := e.ca.IssueLeaf(LeafOpts{OCSP: []string{e.rsp.URL(path)}})
+		chains := [][]*x509.Certificate{{leaf.Cert, e.ca.Cert}}
+		nu := time.Now().Add(time.Hour)
+		var bad RespScript
+		switch kind {
+		case "stranger":
+			bad = RespScript{Kind: "bytes", Body: e.stranger.OCSPResponse(OCSPOpts{Status: ocsp.Good, Serial: leaf.Cert.SerialNumber, NextUpdate: nu})}
+		case "sibling":
+			bad = RespScript{Kind: "bytes", Body: e.sib.OCSPResponse(OCSPOpts{Status: ocsp.Good, Serial: leaf.Cert.SerialNumber, NextUpdate: nu})}
+		case "trylater":
+			bad = RespScript{Kind: "bytes", Body: ocsp.TryLaterErrorResponse}
+		case "malformed":
+			bad = RespScript{Kind: "bytes", Body: []byte("<html>busy</html>")}
+		case "other-serial":
+			bad = RespScript{Kind: "bytes", Body: e.ca.OCSPResponse(OCSPOpts{Status: ocsp.Good, Serial: big.NewInt(424242), NextUpdate: nu})}
+		case "down":
+			bad = RespScript{Kind: "drop"}
+		}
+		look := func(v *Validator) string {
+			res := "panic"
+			func() {
+				defer func() { recover() }()
+				st, err := v.V.VerifOCSPChecker().IsRevoked(leaf.Cert, chains)
+				res = classify(st != nil && st.Revoked, err)
+			}()
+			return res
+		}
+		e.rsp.SetFixed(path, bad)
+		first := look(lenient)
+		// the issuer's own answer becomes available: revoked
+		e.rsp.SetFixed(path, RespScript{Kind: "bytes", Body: e.ca.OCSPResponse(OCSPOpts{Status: ocsp.Revoked, Serial: leaf.Cert.SerialNumber, NextUpdate: nu})})
+		second := look(lenient)
+		key := "non-strict then genuine revoked, first answer " + kind
+		r.Eval(key, true)
+		r.Count("non-strict-trace:" + kind + ":" + first + "/" + second)
+		if first == "revoked" {
+			r.Violate("C05 verdict-from-unentitled-signer non-strict "+kind, key+": first lookup returned revoked", nil)
+		}
+		if second != "revoked" {
+			r.Violate("C05 unauthentic-response-cached non-strict "+kind, fmt.Sprintf("%s: the first lookup (%s) left something behind: with the issuer answering 'revoked' the second lookup returned %s", key, first, second), nil)
+		}
+		// a strict validator of the same process, responder unavailable: there is no authentic answer to serve
+		path2 := fmt.Sprintf("/c05/trace2/%d", i)
+		leaf2 := e.ca.IssueLeaf(LeafOpts{OCSP: []string{e.rsp.URL(path2)}})
+		chains2 := [][]*x509.Certificate{{leaf2.Cert, e.ca.Cert}}
+		e.rsp.SetFixed(path2, bad)
+		func() {
+			defer func() { recover() }()
+			lenient.V.VerifOCSPChecker().IsRevoked(leaf2.Cert, chains2)
+		}()
+		e.rsp.SetFixed(path2, RespScript{Kind: "drop"})
+		st, err := e.val.V.VerifOCSPChecker().IsRevoked(leaf2.Cert, chains2)
+		if got := classify(st != nil && st.Revoked, err); got != "error" {
+			r.Violate("C05 unauthentic-response-cached strict-after-non-strict "+kind, fmt.Sprintf("after a non-strict validator saw the answer %q, the strict validator (responder down) returned %s", kind, got), nil)
+		}
+	}
 }
 
 // c05AKIForms: the issuer candidates of the OCSP check are found through the client certificate's authority key identifier.
